@@ -69,7 +69,7 @@ Proof.
   intros s W G o. unfold coll_deleted in G. rewrite (flush_dbc_spec s W o). unfold exp_c.
   destruct (c_c s) as [| | |p] eqn:C; cbn [is_nohist].
   - destruct (c_d s); tauto.
-  - destruct (wf_c_kind s W); congruence.
+  - destruct (wf_c_kind s W) as [_ H]. rewrite (H C). destruct (c_d s); cbn; tauto.
   - destruct (wf_c_kind s W); congruence.
   - destruct (c_d s) as [l|] eqn:D; [tauto|]. cbn. destruct p; [|discriminate].
     pose proof (wf_c_comm s W [] C o). cbn in H. tauto.
